@@ -92,6 +92,13 @@ Proof.
 Qed.
 
 
+Lemma nodup_names_sound l : nodup_names l = true -> NoDup l.
+Proof.
+  induction l as [|x t IH]; simpl; intros H; [constructor|]. apply andb_true_iff in H. destruct H as [N H].
+  constructor; [apply mem_false, negb_true_iff, N|apply IH, H].
+Qed.
+
+
 (* ------------------------------------------------------------------ scratch names never capture *)
 Fixpoint prefixed (n : nat) (s : string) : string := match n with O => s | S k => prefixed k (sapp "_" s) end.
 Lemma prefixed_length n s : String.length (prefixed n s) = (n + String.length s)%nat.
